@@ -79,6 +79,8 @@ class C04(C03):
                 continue
             for key, mo in model_obs.items():
                 obs = t[key]
+                if obs[0] == "timeout" and mo[0] == "unspec" and "matched empty" in str(mo[1]):
+                    continue  # a repetition over something that matched empty: outside the domain of the property (it need not terminate)
                 if obs[0] in ("exc", "timeout"):
                     self.fail(out, spec, f"exc:{obs[1]}" if obs[0] == "exc" else "timeout", mode, *key, gc.show(mo), gc.show(obs))
                 elif not modes.same_outcome_as_model(obs, mo):
